@@ -173,7 +173,8 @@ TOp ==
            ELSE ""
          \* ---- C19: comparator calls
          n0 == Len(x.elems)
-         correctHint == lb.op \in {"insertHint", "insertHintRv", "emplaceHint"} /\ lb.h = LbIdx(x, lb.v) - 1
+         correctHint == \/ lb.op \in {"insertHint", "insertHintRv", "emplaceHint"} /\ lb.h = LbIdx(x, lb.v) - 1
+                        \/ lb.op = "insertNodeHint" /\ st.node.has /\ lb.h = LbIdx(x, st.node.v) - 1
          c19Fail ==
            IF faulted \/ IsRefS(c) THEN ""
            ELSE IF SFlav[c] = "flat" /\ lb.op \in LookupOps /\ ev.cmps > 2 * CeilLog2(n0 + 1) + 4
@@ -190,7 +191,11 @@ TOp ==
            ELSE IF (lb.op \in ConstOps \/ (lb.op = "assignCopy" /\ lb.c # lb.d)) /\ ~faulted /\ ev.h0 # ev.h1
                 THEN "a const operation changed the representation of the set it reads"
            ELSE ""
-         v0 == IF shapeFail # "" THEN AddViol(viol, (IF faulted THEN {"C09"} ELSE {}) \cup UNION {flavOwner(y) : y \in parts}, l, shapeFail) ELSE viol
+         \* (a hinted insertion that breaks the order of the set is also a failure of "a hint is only a hint", an iterator
+         \*  based operation of a SmallSet that does one of C11)
+         v0 == IF shapeFail # "" THEN AddViol(viol, (IF faulted THEN {"C09"} ELSE {}) \cup UNION {flavOwner(y) : y \in parts}
+                                                   \cup (IF ~faulted /\ lb.op \in HintOps /\ SFlav[c] = "flat" THEN {"C12"} ELSE {})
+                                                   \cup (IF ~faulted /\ SFlav[c] = "small" /\ lb.op \in IterOps THEN {"C11"} ELSE {}), l, shapeFail) ELSE viol
          v1 == IF valueFail # "" /\ shapeFail = "" THEN AddViol(v0, owner, l, valueFail) ELSE v0
          v2 == IF c02Fail # "" THEN AddViol(v1, {"C02"} \cup (IF faulted THEN {"C09"} ELSE {}) \cup
                                             (IF \E y \in parts : reloc[y] THEN {"C14"} ELSE {}), l, c02Fail) ELSE v1
